@@ -63,6 +63,7 @@ def run_case(chk, strategy, storage_kind, d, m, n, subset_kind):
             if storage_kind == "sequence":
                 rows = rows[-1:]
             values = {f: Q(1000 + i) for i, f in enumerate(names)}
+            values[names[rng.randrange(d)]] = rng.choice([0, 0.0, False, Q(0)])   # falsy defaults are legitimate values
             imp = MarginalImputer(model, strategy, st) if strategy != "default" else DefaultImputer(model, dict(values))
             snap = (copy.deepcopy(x), copy.deepcopy(subset), copy.deepcopy(list(st.get_data()[0])), copy.deepcopy(list(st.get_data()[1])))
             nlog = len(draws.log)
@@ -98,8 +99,8 @@ def run_case(chk, strategy, storage_kind, d, m, n, subset_kind):
                 return desc, f"feature {f!r} outside the subset was changed from {x[f]} to {z[f]}", None
         if strategy == "default":
             for f in S:
-                if z[f] != values[f]:
-                    return desc, f"feature {f!r} got {z[f]} instead of the default {values[f]}", None
+                if not (z[f] == values[f]):
+                    return desc, f"feature {f!r} got {z[f]!r} instead of the configured default {values[f]!r}", None
             continue
         src = {}
         for f in S:
@@ -116,7 +117,65 @@ def run_case(chk, strategy, storage_kind, d, m, n, subset_kind):
     if strategy != "default":
         if any(rg != mrows for rg, _ in drawn):
             return desc, f"row index drawn from range {sorted(set(rg for rg, _ in drawn))} with {mrows} stored observations", None
-    pm = [model.__wrapped__(z) if hasattr(model, "__wrapped__") else None for z in []]
+    phase1_inputs = [dict(z) for z in seen_inputs]
+    phase1_rows = [dict(r) for r in rows]
+    # ---- phase 2 (multi-step): the storage keeps changing between imputations; every imputed value must come from an observation
+    #      that is stored NOW (not from a snapshot taken earlier)
+    if strategy != "default":
+        with warnings.catch_warnings():
+            warnings.simplefilter("ignore")
+            with draws.installed():
+                for rnd in range(2):
+                    new_rows = [{f: Q(100000 * (rnd + 1) + 100 * (r + 1) + 10 * i + 3, 11) for i, f in enumerate(names)} for r in range(mrows)]
+                    for i, r in enumerate(new_rows):
+                        st.update(dict(r), 500 + i)
+                    current = [dict(r) for r in st.get_data()[0]]
+                    seen_inputs.clear()
+                    S2 = list(names) if not S else list(S)
+                    try:
+                        imp.impute({"list": list(S2), "set": set(S2), "tuple": tuple(S2), "empty": list(S2), "full": list(S2)}[subset_kind], x, n)
+                    except Exception as ex:
+                        return desc, f"second imputation after storage updates raised {core.err_kind(ex)}: {ex}", None
+                    for z in seen_inputs:
+                        per_f = {f: [r for r in range(len(current)) if current[r][f] == z[f]] for f in S2}
+                        if any(not v for v in per_f.values()):
+                            f = [f for f, v in per_f.items() if not v][0]
+                            return desc, (f"after {(rnd + 1) * mrows} further storage updates: imputed value {z[f]} of feature {f!r} is not the value of that "
+                                          f"feature in any CURRENTLY stored observation (stale background)"), None
+                        if strategy == "joint" and len(set.intersection(*[set(v) for v in per_f.values()])) == 0:
+                            return desc, "after further storage updates: joint strategy mixed stored observations", None
+    # ---- sparse instance (a requested feature is missing from the instance) and a model that raises: never modify the instance
+    if S:
+        xs = {k: v for k, v in x.items() if k != S[0]}
+        snap = copy.deepcopy(xs)
+        try:
+            with warnings.catch_warnings():
+                warnings.simplefilter("ignore")
+                with draws.installed():
+                    imp.impute(list(S), xs, n)
+        except Exception:
+            pass
+        if xs != snap or list(xs.keys()) != list(snap.keys()):
+            return desc, f"the instance was modified by impute (instance without feature {S[0]!r}: {sorted(map(str, snap))} became {sorted(map(str, xs))})", None
+
+        boom = {"n": 0}
+        orig_fn = imp.model_function
+
+        def raising(z):
+            boom["n"] += 1
+            raise RuntimeError("model failure")
+        imp.model_function = raising
+        snap = copy.deepcopy(x)
+        try:
+            with draws.installed():
+                imp.impute(list(S), x, n)
+        except RuntimeError:
+            pass
+        except Exception:
+            pass
+        imp.model_function = orig_fn
+        if x != snap or list(x.keys()) != list(snap.keys()):
+            return desc, "the instance was left modified after the model function raised during impute", None
     if not S:
         base = {"output": sum((v for kk, v in x.items() if kk != "extra"), Q(0)), "second": x[names[0]]}
         if any(p != base for p in preds):
@@ -124,14 +183,14 @@ def run_case(chk, strategy, storage_kind, d, m, n, subset_kind):
     # model request
     idx = {core.canon_key(f): i for i, f in enumerate(names)}
     req = {"op": "impute_inputs", "strategy": strategy, "d": d, "x": [rs(x[f]) for f in names],
-           "S": [idx[core.canon_key(f)] for f in S], "n": n, "rows": [[rs(r[f]) for f in names] for r in rows]}
+           "S": [idx[core.canon_key(f)] for f in S], "n": n, "rows": [[rs(r[f]) for f in names] for r in phase1_rows]}
     if strategy == "joint":
         req["choices"] = [c if c is not None else (drawn[j][1] if j < len(drawn) else 0) for j, c in enumerate(choices)]
     elif strategy == "product":
         req["choices"] = choices
     else:
-        req["values"] = [rs(values[f]) for f in names]
-    impl_inputs = [[rs(z[f]) for f in names] for z in (seen_inputs if strategy != "default" else seen_inputs * n)]
+        req["values"] = [rs(Q(values[f])) for f in names]
+    impl_inputs = [[rs(z[f]) for f in names] for z in (phase1_inputs if strategy != "default" else phase1_inputs * n)]
     return desc, None, (req, impl_inputs)
 
 
@@ -148,6 +207,9 @@ def run(tier="quick", seed=0, replay=None):
         print(open(replay).read())
         return 1
     core.lean_stage(chk, "C06")
+    from harness import cover
+    _cv = cover.Cover(['ixai/imputer/marginal_imputer.py', 'ixai/imputer/default_imputer.py', 'ixai/imputer/base.py'])
+    _cv.__enter__()
     quick = tier == "quick"
     cases = []
     for strategy in ("joint", "product", "default"):
@@ -180,6 +242,8 @@ def run(tier="quick", seed=0, replay=None):
                 chk.tie_failure("correspondence:imputer", f"{desc}: impl inputs {impl_inputs} model {ans}")
     else:
         chk.tie_failure("driver", "model driver not built")
+    _cv.__exit__(None, None, None)
+    cover.gate(chk, _cv, only_functions=['MarginalImputer', 'DefaultImputer', 'BaseImputer'])
     chk.exhaustive = False
     chk.extra["explanation"] = ("Theorems about Model/Imputer.lean for every instance, subset, rows, n and row choice; the real imputers "
                                 "are run with recording model functions and compared input by input; snapshots establish non-modification.")
